@@ -54,7 +54,8 @@ def scenario(mseq, cores=2):
             fail_drain = True
         mops += ops
     clients = [
-        dict(name="H", ops=[("enq", 0), ("enq", 1), ("states",)], healthy=True),
+        # two polls for short M sequences: a state change that is not announced between them (stale answers) becomes visible
+        dict(name="H", ops=[("enq", 0), ("enq", 1), ("states",)] + ([("states",)] if len(mseq) == 1 and mseq[0].startswith("enq-") else []), healthy=True),
         dict(name="M", ops=mops, fail_drain=fail_drain),
         dict(name="N", ops=[("enq", 2), ("states",)], healthy=True, after="M"),
     ]
